@@ -6,50 +6,26 @@ import sys
 
 ROOT = os.path.dirname(os.path.dirname(os.path.abspath(__file__)))
 
+# lib/claims/Cxx.json: {"text": level text, "note": trusted base / assumptions, "technique": ..., "ref": DESIGN section}
 TB = ("Trusted: Coq 8.16.1 kernel (coqc; coqchk in the thorough tier), vm_compute inside finite-sweep proofs, no "
       "native_compute; axioms: none (Print Assumptions of every theorem is 'Closed under the global context', checked "
       "on every run); extraction with ExtrOcamlBasic only + ocaml/runner.ml; Go correspondence harness injected with "
       "go test -overlay (tag verif); ")
 
-CLAIMS = {
-    "C18": dict(
-        text="Theorems over every byte value/nibble, every increment sequence, every seed vector and every table size "
-             "(Properties/C18.v: row increment/reset algebra, next2Power on [1,2^62], sketch lower/upper/monotone bounds, "
-             "tinyLFU lower bound between resets, reset/clear effects) about an executable Gallina model of sketch.go and "
-             "tinyLFU; the model is tied to the code on every run by an exhaustive byte-level and randomized "
-             "sequence-level differential run (white-box, seeds forced).",
-        note=TB + "doorkeeper size/locs come from float arithmetic and are probed from the implementation; NumCounters<2 "
-                  "(panics) excluded by the property.",
-        technique="Coq proof (induction + exhaustive byte sweep lifted by forallb_forall) + model/code correspondence",
-        ref="8 C18"),
-    "C19": dict(
-        text="Theorems for every size exponent 9..63, every number of locations and every 64-bit hash "
-             "(Properties/C19.v: no false negatives, Add monotone, AddIfNotHas, Clear, getSize, JSON round trip gives back "
-             "the identical filter) about a byte-addressed Gallina model of bbloom.go; correspondence compares the bit-set "
-             "bytes after every mutation and runs the real encoding/json round trip.",
-        note=TB + "encoding/json trusted to round-trip ([]byte,uint64); (entries,fp-rate) sizing is float arithmetic, probed; "
-                  "little-endian byte addressing of the []uint64 bit set.",
-        technique="Coq proof (bit-level lemmas, induction over positions) + model/code correspondence",
-        ref="8 C19"),
-    "C20": dict(
-        text="The amd64 kernel is TRANSLATED from z/simd/search_amd64.s on every run (gen/asm2coq.py -> Gen/SearchAsm.v) into "
-             "an instruction list over a 15-instruction x86-64 semantics (Simd/X86.v); Properties/C20.v proves, for the "
-             "generated program, every slice whose length is a non-zero multiple of 8 (< 2^16, int16 result), every k, every "
-             "base address and every content of the memory after the slice: termination with first_ge and all reads inside "
-             "the slice (symbolic execution, induction over 8-word blocks); plus Naive = portable Search = first_ge for all "
-             "lengths, and the exported guarded Search = first_ge for every length, independent of trailing memory. The "
-             "correspondence runs real Search/Naive/Clever on slices embedded in adversarial backing arrays against the "
-             "extracted interpreter.",
-        note=TB + "the translator and the instruction semantics are validated (not verified) by the correspondence, which "
-                  "reproduced the real kernel's over-read before the fix; lengths >= 2^16 excluded (int16 result).",
-        technique="translator-regenerated model + Coq proof by symbolic execution/induction + differential run",
-        ref="8 C20"),
-}
+def load_claims():
+    d = os.path.join(ROOT, "lib", "claims")
+    out = {}
+    for f in sorted(os.listdir(d)):
+        if f.endswith(".json"):
+            out[f[:-5]] = json.load(open(os.path.join(d, f)))
+    return out
+
 
 TODO_REASON = "not yet covered in this build round: model/theorems under construction (see DESIGN.md section 11); no check is registered rather than a weaker technique"
 
 
 def main():
+    CLAIMS = load_claims()
     props = [json.loads(l) for l in open(os.path.join(ROOT, "properties.jsonl"))]
     checks = []
     na = []
